@@ -124,10 +124,12 @@ TEXT.update({
            "with hostile names (mirsym on the simple-mdns MIR), and every reply produced re-parses.", "DESIGN.md section 3 C14",
            "Not covered by this technique: sockets, threads, lock poisoning as scheduling, tokio executor. Trie/HashMap/clock are models.",
            "Kani/CBMC + MIR symbolic execution with z3 over the sequential handling functions"),
- "C15": _t("Piecewise symbolic execution of the discovery chain on the real MIR: instance-name escaping round trip over all short Unicode strings, "
-           "attribute map <-> TXT losslessness, announced record kinds across the compressed wire, and the ingest filter (never own instance / "
-           "service name / non-subdomain; always the admissible records).", "DESIGN.md section 3 C15",
-           "from_records' HashSet<IpAddr>/port reconstruction and the socket transport are not executed symbolically.",
-           "MIR symbolic execution + z3, piecewise over the discovery chain"),
+ "C15": _t("Symbolic execution of the discovery chain on the real MIR: the end-to-end chain instance -> into_records -> compressed packet -> "
+           "parse -> from_records with symbolic names, addresses, ports, TTL and attributes under every hash-container iteration order "
+           "(same name, address set, port set, attribute map; one A/AAAA/SRV per member, one TXT), plus the pieces: escaping round trip over all "
+           "short Unicode strings, attribute map <-> TXT, announced record kinds across the compressed wire, and the ingest filter (never own "
+           "instance / service name / non-subdomain; always the admissible records).", "DESIGN.md section 3 C15 and 8.2",
+           "The socket transport and the store between ingest and from_records are not part of the end-to-end run (decided separately).",
+           "MIR symbolic execution + z3 over the discovery chain, counter-examples replayed natively"),
 })
 NA_REASON = {}
